@@ -150,6 +150,14 @@ class _Shim:
     def full_like(self, a, fill_value, dtype=None, **kw):
         return _falloc(_np.shape(_obj(a) if has_sym(a) else a), fill_value)
 
+    def full(self, shape, fill_value, dtype=None, **kw):
+        if _is_float_dtype(dtype) or (dtype is None and (isinstance(fill_value, (float, Sym)))):
+            return _falloc(shape, fill_value)
+        return _np.full(shape, fill_value, dtype=dtype, **kw)
+
+    def shape(self, a):
+        return _np.shape(_obj(a) if has_sym(a) else a)
+
     def array(self, obj, *a, **kw):
         if has_sym(obj):
             kw.pop('dtype', None)
